@@ -259,7 +259,7 @@ def cases(tier, seed):
         for mode in ("sequential", "nested", "schedule"):
             nm = "%s|%s" % (fam, mode)
             cs.append(Case(nm + ("|L=%d" % L if mode == "schedule" else ""), harness(fam, L, N, mode), key=nm, reset=eql_reset, validate=1,
-                           timeout=400 if tier == "quick" else 2400, max_paths=150000 if tier == "quick" else 2000000))
+                           timeout=400 if tier == "quick" else 2400, max_paths=150000 if tier == "quick" else 2000000, cex_grace=10**9))
     return cs
 
 
